@@ -116,6 +116,15 @@ macro_rules! with_bp_small {
         }
     };
 }
+macro_rules! with_bp_diag {
+    ($b:expr, $p:expr, $f:ident ( $($args:expr),* )) => {
+        match ($b, $p) {
+            (8, 3) => $f::<u8, 3>($($args),*), (8, 5) => $f::<u8, 5>($($args),*), (8, 8) => $f::<u8, 8>($($args),*),
+            (16, 4) => $f::<u16, 4>($($args),*), (16, 12) => $f::<u16, 12>($($args),*), (16, 16) => $f::<u16, 16>($($args),*),
+            (b, p) => panic!("unsupported (B, P) = ({}, {})", b, p),
+        }
+    };
+}
 /// Runs `$body` with `$Pr`/`$P` bound to the probability type and precision of the case.
 #[macro_export]
 macro_rules! with_bp {
@@ -294,6 +303,7 @@ pub fn model_case(case: &Value, mode: &str, rep: &mut Report) {
         "uniform" => with_bp_small!(b, p, uniform_case(case, mode, rep)),
         "fast" => with_bp_small!(b, p, fast_case(case, mode, rep)),
         "leaky" => with_bp_small!(b, p, leaky_case(case, mode, rep)),
+        "diag" => with_bp_diag!(b, p, diag_case(case, mode, rep)),
         k => panic!("unknown model case kind {}", k),
     }
 }
@@ -510,4 +520,59 @@ where Pr: VInt + Into<f64>, f64: AsPrimitive<Pr>, i8: AsPrimitive<Pr>, u8: AsPri
     leaky_sym::<Pr, u16, P>(case, mode, rep, &k, m, n, accept, &rows, &[0, 65535 - nn], &hints[..8]);
     leaky_sym::<Pr, i32, P>(case, mode, rep, &k, m, n, accept, &rows, &[i32::MIN as i64, -7, i32::MAX as i64 - nn], &hints[..8]);
     leaky_sym::<Pr, u32, P>(case, mode, rep, &k, m, n, accept, &rows, &[0, u32::MAX as i64 - nn], &hints[..8]);
+}
+
+// ---------------------------------------------------------------------------------------------
+// kind "diag": information-theoretic diagnostics on dyadic models (exact rationals from the spec)
+// ---------------------------------------------------------------------------------------------
+pub fn diag_case<Pr, const P: usize>(case: &Value, _mode: &str, rep: &mut Report)
+where Pr: VInt + Into<usize> + AsPrimitive<usize> + Into<f64> + Into<f32>, usize: AsPrimitive<Pr>, f64: AsPrimitive<Pr> + From<Pr>, f32: From<Pr> {
+    let probs: Vec<u64> = case["probs"].as_array().unwrap().iter().map(|x| x.as_u64().unwrap()).collect();
+    let n = probs.len();
+    let den = (1u64 << P) as f64;
+    let r = guarded(|| {
+        let mut out: Vec<String> = vec![]; let mut checks = 0u64;
+        let pv: Vec<Pr> = probs.iter().map(|x| Pr::from_u128_trunc(*x as u128)).collect();
+        let m = CC::<Pr, P>::from_nonzero_fixed_point_probabilities(pv.iter(), false).expect("dyadic table is valid");
+        let close = |got: f64, want: f64, tol: f64| (got - want).abs() <= tol * (1.0 + want.abs());
+        macro_rules! chk { ($name:expr, $got:expr, $want:expr, $tol:expr) => {{ checks += 1; let g: f64 = $got; let w: f64 = $want; if !close(g, w, $tol) { out.push(format!("{} = {}, textbook value on the exact fixed-point probabilities = {}", $name, g, w)); } }} }
+        let h = case["entropy_num"].as_i64().unwrap() as f64 / den;
+        chk!("entropy_base2::<f64>", m.entropy_base2::<f64>(), h, 1e-12);
+        chk!("entropy_base2::<f32>", m.entropy_base2::<f32>() as f64, h, 1e-5);
+        chk!("as_view().entropy_base2::<f64>", m.as_view().entropy_base2::<f64>(), h, 1e-12);
+        chk!("NonContiguousCategoricalEncoderModel::entropy_base2", m.to_generic_encoder_model().entropy_base2::<f64>(), h, 1e-12);
+        chk!("to_generic_decoder_model().entropy_base2", m.to_generic_decoder_model().entropy_base2::<f64>(), h, 1e-12);
+        // floating point views of the probabilities
+        let fps: Vec<(usize, f64, f64)> = m.floating_point_symbol_table::<f64>().collect();
+        let mut acc = 0u64;
+        for (i, p) in probs.iter().enumerate() {
+            checks += 2;
+            if fps[i].0 != i || !close(fps[i].1, acc as f64 / den, 1e-15) || !close(fps[i].2, *p as f64 / den, 1e-15) { out.push(format!("floating_point_symbol_table entry {} = {:?}, exact ({}, {})", i, fps[i], acc as f64 / den, *p as f64 / den)); }
+            let fp: f64 = m.floating_point_probability(i); let fp32: f32 = m.floating_point_probability(i);
+            if !close(fp, *p as f64 / den, 1e-15) || !close(fp32 as f64, *p as f64 / den, 1e-6) { out.push(format!("floating_point_probability({}) = {} / {}, exact {}", i, fp, fp32, *p as f64 / den)); }
+            acc += p;
+        }
+        if fps.len() != n { out.push(format!("floating_point_symbol_table has {} entries for {} symbols", fps.len(), n)); }
+        for rf in case["refs"].as_array().unwrap() {
+            let q: Vec<f64> = rf["q"].as_array().unwrap().iter().map(|x| x.as_u64().unwrap() as f64 / 4.0).collect();
+            let q32: Vec<f32> = q.iter().map(|x| *x as f32).collect();
+            chk!(format!("cross_entropy_base2({:?})", q), m.cross_entropy_base2::<f64>(q.iter().cloned()), rf["cross_num"].as_i64().unwrap() as f64 / 4.0, 1e-12);
+            chk!(format!("cross_entropy_base2::<f32>({:?})", q), m.cross_entropy_base2::<f32>(q32.iter().cloned()) as f64, rf["cross_num"].as_i64().unwrap() as f64 / 4.0, 1e-5);
+            chk!(format!("kl_divergence_base2({:?})", q), m.kl_divergence_base2::<f64>(q.iter().cloned()), rf["kl_num"].as_i64().unwrap() as f64 / 4.0, 1e-12);
+            chk!(format!("kl_divergence_base2::<f32>({:?})", q), m.kl_divergence_base2::<f32>(q32.iter().cloned()) as f64, rf["kl_num"].as_i64().unwrap() as f64 / 4.0, 1e-5);
+            if rf["allpos"].as_bool().unwrap() {
+                chk!(format!("reverse_cross_entropy_base2({:?})", q), m.reverse_cross_entropy_base2::<f64>(q.iter().cloned()), rf["rcross_num"].as_i64().unwrap() as f64 / den, 1e-12);
+                chk!(format!("reverse_kl_divergence_base2({:?})", q), m.reverse_kl_divergence_base2::<f64>(q.iter().cloned()), rf["rkl_num"].as_i64().unwrap() as f64 / den, 1e-12);
+                chk!(format!("reverse_kl_divergence_base2::<f32>({:?})", q), m.reverse_kl_divergence_base2::<f32>(q32.iter().cloned()) as f64, rf["rkl_num"].as_i64().unwrap() as f64 / den, 1e-5);
+                chk!(format!("reverse_cross_entropy_base2::<f32>({:?})", q), m.reverse_cross_entropy_base2::<f32>(q32.iter().cloned()) as f64, rf["rcross_num"].as_i64().unwrap() as f64 / den, 1e-5);
+            } else { rep_zero_ref(); }
+        }
+        // a uniform model with a power-of-two range is dyadic too
+        if probs.iter().all(|p| *p == probs[0]) { let u = UniformModel::<Pr, P>::new(n); chk!("UniformModel::entropy_base2", u.entropy_base2::<f64>(), h, 1e-12); }
+        (out, checks)
+    });
+    fn rep_zero_ref() {}
+    rep.class("diag_model");
+    if P == Pr::nbits() as usize { rep.class("diag_full_precision"); }
+    match r { Ok((out, checks)) => { rep.checks += checks; for d in out.into_iter().take(4) { rep.mismatch(case, d); } } Err(m) => rep.mismatch(case, format!("panic in diagnostics: {}", m)) }
 }
